@@ -228,6 +228,17 @@ add("C29", "TLC on GaussMarkov.tla (covariance recursion of Wiener / Ornstein-Uh
     "covariance, the response to the initial state the propagator, and the path must be linear in the excitations.",
     TRUST + "rho = exp(-gamma dt) is given exactly and gamma computed in floating point; comparison to 1e-10.")
 
+add("C35", "TLC on LosTraverse.tla (a line through a grid as a transition system over grid-line crossings, exact lengths per pixel; laws and termination checked) and IndexOps.tla (interpolation, regridding, zero padding, masks, non-uniform Fourier sums as exact sparse matrices) + replay of every walk / instance into the real operators",
+    "LosTraverse.tla walks every segment between 8 rational end points (inside, on grid lines, outside the grid) over three distance settings: one "
+    "action per grid-line crossing, weights = exact parameter lengths; TLC checks that each pixel is visited once, that the weights of an inside "
+    "segment add up to 1 and (fairness) that the walk ends. The dense rows of LOSResponse (all lines in one operator) and its adjoint are compared "
+    "with the walk; nifty.re's SamplingCartesianGridLOS is compared for interpolation orders 0 and 1 with the documented mid-point sampling rule "
+    "at the spec's exact sampling points. IndexOps.tla gives, per instance, the sparse matrix with rational weights of LinearInterpolator (1-d, 2-d, "
+    "periodic wrap, negative positions), RegriddingOperator (also on a sub-space and 2-d), FieldZeroPadder (end / central), MaskOperator (1-d, 2-d) "
+    "and the exact fraction of a turn of every term of the non-uniform Fourier sum for Nufft (1-d, 2-d) and Gridder; forward matrices and adjoints "
+    "are compared.",
+    TRUST + "float32 weights and the 1e-7 end-point offset of LOSResponse bound its comparison to 2e-5; Nufft/Gridder at eps=1e-12 compared to 1e-9; VariablePositionNufft and the parallax (sigmas) mode of LOSResponse are not covered.")
+
 
 def main():
     props = [json.loads(l) for l in open(os.path.join(HERE, "properties.jsonl"))]
